@@ -3,6 +3,7 @@ package props
 import (
 	"fmt"
 	"math/rand"
+	"os"
 	"path/filepath"
 	"regexp"
 	"strings"
@@ -34,6 +35,24 @@ func c15Check(env *core.Env, cc core.Case) core.Verdict {
 	c := cc.(*c15Case)
 	root := emptyRoot(env)
 	defer rmCase(root)
+	rootName := "crs"
+	if (len(c.Cmd)+len(c.DirAt))%3 == 1 {
+		// the root directory's own name holds characters a glob pattern would interpret, and next to it lie the
+		// directories such a pattern would match (with files every command would like to rewrite)
+		rootName = "crs[12]"
+		renamed := filepath.Join(filepath.Dir(root), rootName)
+		if err := os.Rename(root, renamed); err != nil {
+			return core.Incon("cannot rename root: %v", err)
+		}
+		root = renamed
+		for _, sib := range []string{"crs1", "crs2"} {
+			st := sut.Tree{"../" + sib + "/tests/regression/tests/REQUEST-920-X/920100.yaml": "  - test_id: 9\n  - test_id: 4\n\n\n", "../" + sib + "/regex-assembly/932100.ra": "     sibling\n",
+				"../" + sib + "/rules/REQUEST-932-SIBLING.conf": "# OWASP CRS ver.1.0.0\nSecRule ARGS \"@rx sibling\" \\\n    \"id:932100,\\\n    ver:'OWASP_CRS/1.0.0'\"\n"}
+			if err := st.Write(root); err != nil {
+				return core.Incon("cannot write sibling: %v", err)
+			}
+		}
+	}
 	tree := c.Proj.tree()
 	if err := tree.Write(root); err != nil {
 		return core.Incon("cannot write tree: %v", err)
@@ -262,8 +281,8 @@ func c15Check(env *core.Env, cc core.Case) core.Verdict {
 	}
 	for _, d := range diff {
 		p := d[1:]
-		inRoot, _ := filepath.Rel("crs", p)
-		if strings.HasPrefix(p, "crs/") && allowed(inRoot) && d[0] == '~' {
+		inRoot, _ := filepath.Rel(rootName, p)
+		if strings.HasPrefix(p, rootName+"/") && allowed(inRoot) && d[0] == '~' {
 			v.Counts["files_rewritten"]++
 			continue
 		}
@@ -277,7 +296,7 @@ func c15Check(env *core.Env, cc core.Case) core.Verdict {
 		if strings.HasPrefix(rp, "..") || filepath.IsAbs(rp) {
 			return core.Viol("syscall-outside-root:"+c.Cmd, "%v performed a write-class system call outside the CRS root: %s", args, e.Raw)
 		}
-		if _, existed := before[filepath.Join("crs", rp)]; existed && !allowed(rp) {
+		if _, existed := before[filepath.Join(rootName, rp)]; existed && !allowed(rp) {
 			return core.Viol("syscall-on-non-target:"+c.Cmd, "%v performed a write-class system call on %s, which is not one of its targets: %s", args, rp, e.Raw)
 		}
 	}
@@ -288,7 +307,7 @@ func init() {
 	register(&core.Property{
 		ID:    "C15",
 		Level: "exploration",
-		Rule: "generated CRS trees (1..3 rules files, assembly files with includes/definitions/stored names, test files, setup example) with ~25 decoys (near-miss extensions and names such as 932100.ra.bak, 9321000.yaml, 920110 without extension, *.conf~, notes.example.txt, README files containing marker text, a sibling directory outside the root with rules/assembly/test files, and the same in the directory above the root, so that the root is nested in something that looks like another root) x 33 inspecting command lines (generate file/stdin/missing, compare single/--all/github, format --check single/--all/github, renumber-tests --check single/--all/github, version, completion for 4 shells, help, failing invocations, --check and single-target runs on missing targets and on decoys that only resemble a target) and 13 rewriting ones (format single/include/--all, format of an include file and of a rule file from a working directory that holds a file of the same name, update single/--all, the same with a backup copy of the rules file that matches the same glob and sorts in front of it, renumber-tests single/--all, update-copyright) x -d at the root or 1..2 levels below. Two thirds of the runs get the environment of a GitHub workflow (GITHUB_ACTIONS, GITHUB_STEP_SUMMARY / GITHUB_OUTPUT / GITHUB_ENV naming files inside the sandbox), half of those a temporary directory on another file system. Every run is traced with strace -f (file-related and attribute system calls). " +
+		Rule: "generated CRS trees (1..3 rules files, assembly files with includes/definitions/stored names, test files, setup example) with ~25 decoys (near-miss extensions and names such as 932100.ra.bak, 9321000.yaml, 920110 without extension, *.conf~, notes.example.txt, README files containing marker text, a sibling directory outside the root with rules/assembly/test files, and the same in the directory above the root, so that the root is nested in something that looks like another root; a third of the runs use a root directory named crs[12] next to directories crs1 and crs2 that hold files every command would rewrite) x 33 inspecting command lines (generate file/stdin/missing, compare single/--all/github, format --check single/--all/github, renumber-tests --check single/--all/github, version, completion for 4 shells, help, failing invocations, --check and single-target runs on missing targets and on decoys that only resemble a target) and 13 rewriting ones (format single/include/--all, format of an include file and of a rule file from a working directory that holds a file of the same name, update single/--all, the same with a backup copy of the rules file that matches the same glob and sorts in front of it, renumber-tests single/--all, update-copyright) x -d at the root or 1..2 levels below. Two thirds of the runs get the environment of a GitHub workflow (GITHUB_ACTIONS, GITHUB_STEP_SUMMARY / GITHUB_OUTPUT / GITHUB_ENV naming files inside the sandbox), half of those a temporary directory on another file system. Every run is traced with strace -f (file-related and attribute system calls). " +
 			"Oracle: inspecting commands perform no successful write-class system call (open for writing/creating, unlink, rename, mkdir, chmod, truncate, link ...; /dev/null excepted) and leave the sandbox snapshot (root plus outside sibling) identical; rewriting commands change only paths allowed by a path model written from the statement, perform no write-class call outside the root or on a pre-existing non-target. Non-trivial = every traced run; distinct by (tree, command, -d).",
 		Cases: func(env *core.Env, rng *rand.Rand) []core.Case {
 			trees := env.N(10, 80)
